@@ -900,6 +900,59 @@ def nested_open_types(ctx):
                                 ctx.prop_fail('nested open types, resolution off: the member does not hold the complete inner encoding', m)
 
 
+def several_open_fields(ctx):
+    """Records with TWO or THREE open members, each governed by a member of its own through a map of its own: every
+    combination of mapped / unmapped governing values, tagging of the ANYs, outer kind, codec and mode, resolution
+    on / off / by a caller's map.  Each member on its own: typed as ITS map says for ITS governing value, or - unmapped
+    or resolution off - exactly the complete inner encoding.  (Anything carried over from one member to the next shows
+    only here: the grids above have one open member per record.)"""
+    import itertools
+    from pyasn1.type import tag as _tag
+    from pyasn1.codec.ber import encoder as be, decoder as bd
+    from pyasn1.codec.cer import encoder as ce, decoder as cd
+    from pyasn1.codec.der import encoder as de, decoder as dd
+    maps = [{1: univ.Integer(), 2: univ.OctetString()}, {1: univ.OctetString(), 2: univ.Boolean()}, {2: univ.Integer(), 3: univ.Null()}]
+    inner = {univ.Integer: univ.Integer(300), univ.OctetString: univ.OctetString(b'hi'), univ.Boolean: univ.Boolean(True), univ.Null: univ.Null('')}
+    def anyT(k, n):
+        if k == 'exp': return univ.Any().subtype(explicitTag=_tag.Tag(_tag.tagClassContext, _tag.tagFormatConstructed, n))
+        return univ.Any().subtype(implicitTag=_tag.Tag(_tag.tagClassContext, _tag.tagFormatSimple, n))
+    for cls, k, nf in itertools.product((univ.Sequence, univ.Set), ('exp', 'imp'), (2, 3)):
+        nts = []
+        for j in range(nf):
+            nts.append(namedtype.NamedType('g%d' % j, univ.Integer().subtype(implicitTag=_tag.Tag(_tag.tagClassContext, _tag.tagFormatSimple, 10 + j))))
+            nts.append(namedtype.NamedType('v%d' % j, anyT(k, j), openType=opentype.OpenType('g%d' % j, maps[j])))
+        T = cls(componentType=namedtype.NamedTypes(*nts))
+        for govs in itertools.product((1, 2, 9), repeat=nf):
+            for cname, enc, dec, kw in (('BER', be, bd, {}), ('BER', be, bd, {'defMode': False}), ('CER', ce, cd, {}), ('DER', de, dd, {})):
+                inners = [inner[type(maps[j].get(govs[j], univ.OctetString()))] for j in range(nf)]
+                encs = [bytes(enc.encode(x, **kw)) for x in inners]
+                v = T.clone()
+                for j in range(nf):
+                    v['g%d' % j] = govs[j]; v['v%d' % j] = v['v%d' % j].clone(encs[j])
+                data = bytes(enc.encode(v, **kw))
+                for how, dkw in (('on', {'decodeOpenTypes': True}), ('off', {}), ('caller-map', {'openTypes': {9: univ.OctetString()}})):
+                    ctx.case(('several-open', cls.__name__, k, nf, govs, cname, tuple(kw), how), True)
+                    ctx.stats['records with several open members'] += 1
+                    m = {'outer': cls.__name__, 'any_tagging': k, 'governing_values': list(govs), 'codec': cname, 'options': kw, 'resolution': how, 'bytes': data.hex()}
+                    r = I.run_decode(cname, data, asn1Spec=T, **dkw)
+                    if r[0] != 'ok' or r[2]:
+                        ctx.prop_fail('record with several open members is not decoded: %s' % (r[2] if r[0] != 'ok' else 'octets left over'), m); continue
+                    for j in range(nf):
+                        f = r[1]['v%d' % j]
+                        want = None
+                        if how == 'on': want = maps[j].get(govs[j])
+                        elif how == 'caller-map': want = univ.OctetString() if govs[j] == 9 else maps[j].get(govs[j])
+                        if want is not None:
+                            exp_inner = inner[type(want)] if how != 'caller-map' or govs[j] != 9 else None
+                            ok = f.isSameTypeWith(want) and (exp_inner is None or f == exp_inner)
+                        else:
+                            ok = isinstance(f, univ.Any) and bytes(f) == encs[j]
+                        if not ok:
+                            ctx.prop_fail('open member %d of a record with %d open members: %s' % (j, nf, 'not the type its own map gives for its own governing value'
+                                          if want is not None else 'unmapped / unresolved member does not hold exactly the inner encoding'),
+                                          dict(m, member=j, got=repr(f)[:160], inner_encoding=encs[j].hex()))
+
+
 def run(ctx):
     ctx.rule = ('open records: SEQUENCE/SET with a governing INTEGER or OID member (sometimes tagged; mandatory, DEFAULT with the value equal '
                 'to the default - unset or set, never on the wire - or different from it, or OPTIONAL present/left out), 0-2 tagged siblings (some OPTIONAL), and '
@@ -996,6 +1049,7 @@ def run(ctx):
                 # what the decoder makes of the malformed octets F01 produces is not this property's business
                 ctx.corr_fail('model and implementation disagree on an open record (encoding or one of the decode variants)', m,
                               finding='F01' if m['class'] == 'F01' else None)
+    several_open_fields(ctx)
 
 
 def replay(data):
